@@ -478,6 +478,9 @@ func (db *DB) SetReadOnly() error {
 		return ErrClosed
 	}
 
+	// No new table compaction may start from now on, in-flight ones drain.
+	atomic.StoreUint32(&db.readOnly, 1)
+
 	// Set compaction read-only.
 	select {
 	case db.compErrSetC <- ErrReadOnly:
